@@ -76,6 +76,11 @@ def esc_once(s):
 def classify_probe_failure(probe, exp, got):
     """signature of a recovery/structure failure (for the known-finding matchers)."""
     parts = probe["parts"]
+    if probe["chan"] == "guidance_hint" and ":" in probe["where"].get("xpath", "").rsplit("/", 1)[-1]:
+        # F41: Survey.itext() takes the part after the FIRST colon of the itext id as the label type
+        g, e = F.ws_norm_text(F.flat(got)), F.ws_norm_text(F.flat(exp))
+        if g == F.ws_norm_text("jr://guidance/" + F.flat(exp)) or (g.startswith("jr://guidance/") and g[len("jr://guidance/"):].strip() == e):
+            return "guidance-media-url-prefixed-name"
     got_o = [c[1] for c in got if c[0] == "o"]
     exp_o = [c[1] for c in exp if c[0] == "o"]
     for i, p in enumerate(parts):
@@ -101,9 +106,12 @@ def classify_probe_failure(probe, exp, got):
     return "other"
 
 
-def check_form(ctx, form, probes, tag="gen", expect_reject=False):
+def check_form(ctx, form, probes, tag="gen", expect_reject=False, r=None, env_name=None):
     case = {"kind": "form", "form": form, "probes": probes}
-    r = impl.run(form)
+    if env_name:
+        case["env"] = env_name
+    if r is None:
+        r = impl.run(form)
     ctx.count(f"form:{r['class']}")
     if expect_reject:
         # a cell with a character that is not an XML Char: the only outcomes compatible with the property are a
@@ -305,10 +313,26 @@ def validchars_case(ctx, s):
         ctx.mismatch("validChars vs INVALID_XML_CHAR_REGEX", {"kind": "validchars", "s": s}, i, m)
 
 
+INST_JUNK = ["instance(", "instance('l')", "instance('l')/", "instance('l')/root", "/root/item", "[", "]", "[name = 1]", " and ", " or ",
+             " div ", " mod ", "'", '"', " ", "  ", "${a}", "${b2}", "/label", "myinstance('x')", "instance(\"l\")/root/item[a=${a}]/b",
+             "x", "<", "&", ",", "(", ")", "-", "*", "|", "instance('l')/root/item[instance('m')/root/x = 1]/label", "\n", "1", ".", ".."]
+
+
 def corr_string(rng):
     r = rng.random()
+    if r < 0.14:
+        # instance() expressions: structured cells (as in the probe forms) or lexical junk around `instance(`
+        if rng.random() < 0.5:
+            parts = F.gen_parts(rng, ["a", "b2", "q"], rng.random() < 0.6, True)
+            if not any(p[0] == "i" for p in parts):
+                parts.append(["t", " "])
+                parts.append(["i", rng.choice(F.INST_PRE), rng.choice(["a", None]) , rng.choice(F.INST_POST)])
+                if parts[-1][2] is None:
+                    parts[-1][1] += "1"
+            return F.cell_text(parts) + rng.choice(["", "", " and ${a} t", " or x", " div 2", "'s", " \"q\""])
+        return "".join(rng.choice(INST_JUNK) for _ in range(rng.randint(2, 9)))
     s = F.adv(rng, 7)
-    if r < 0.45:
+    if r < 0.5:
         return s
     refs = ["a", "b2", "q"]
     n = rng.randint(1, 3)
@@ -362,10 +386,98 @@ def directed(ctx):
                 continue
             one([["t", f"a{c}b"]], chan=chan, expect_reject=True)
     one([["t", "a\x01b "], ["r", "a"], ["t", " c"]], expect_reject=True)
+    # a question name with a declared namespace prefix: every channel of that question, 0-2 languages (F41 lives here)
+    for langs in ([], ["en"], ["en", "fr"]):
+        row = {"type": "text", "name": "ex:q"}
+        probes = []
+        for chan in ("label", "hint", "guidance_hint", "constraint_message", "required_message"):
+            for lg in (langs or [None]):
+                parts = F.gen_parts(ctx.rng, ["a", "b2"], ctx.rng.random() < 0.4, False)
+                col = chan if lg is None else f"{chan}::{lg}"
+                row[col] = F.cell_text(parts)
+                probes.append({"id": len(probes), "chan": chan, "where": {"xpath": "/data/ex:q"}, "lang": lg, "parts": parts,
+                               "sheet": "survey", "row": 2, "col": col})
+        form = {"survey": [*copy.deepcopy(base), row], "settings": [{"namespaces": 'ex="http://example.com/ex"'}]}
+        check_form(ctx, form, probes, "directed")
     # line ends and attribute-value normalisation (must pass modulo the documented normalisation)
     for chan in ("label", "hint", "constraint_message", "default", "appearance", "bind::foo", "body::bar", "required_message"):
         one([["t", "l1\r\nl2\rl3\nl4\tl5  l6"]], chan=chan)
     one([["t", "l1\r\nl2 "], ["r", "a"], ["t", "\rl3\n"], ["r", "b2"], ["t", "\tl5"]])
+
+
+# ------------------------------------------------------------------ environment stream: the locale of the converting process
+
+ENVS = {
+    # what Python has on a stock Windows installation / under a legacy POSIX locale: default text encoding not UTF-8
+    "legacy-locale": {"LC_ALL": "C", "LANG": "C", "PYTHONUTF8": "0", "PYTHONCOERCECLOCALE": "0"},
+    "utf8": {"LC_ALL": "C.UTF-8", "LANG": "C.UTF-8", "PYTHONUTF8": "1"},
+}
+
+
+def run_children(forms, env_name):
+    import json
+    import os
+    import subprocess
+    import sys
+
+    env = dict(os.environ)
+    for k in ("LC_ALL", "LANG", "LC_CTYPE", "PYTHONUTF8", "PYTHONCOERCECLOCALE", "PYTHONIOENCODING"):
+        env.pop(k, None)
+    env.update(ENVS[env_name])
+    here = os.path.dirname(os.path.dirname(os.path.abspath(__file__)))
+    env["PYTHONPATH"] = here + os.pathsep + env.get("PYTHONPATH", "")
+    p = subprocess.run([sys.executable, os.path.join(here, "c06_child.py")], input=json.dumps(forms).encode("ascii"),
+                       capture_output=True, env=env, timeout=600, check=False)
+    if p.returncode != 0:
+        raise vcore.Infra(f"child process ({env_name}) failed: {p.stderr.decode('utf-8', 'replace')[-1500:]}")
+    return json.loads(p.stdout.decode("ascii"))
+
+
+def env_forms(ctx, n):
+    """probe forms whose cells all carry text outside ASCII / Latin-1 / the BMP"""
+    rng = ctx.rng
+    spice = ["é", "ñ€", "שלום", "مرحبا", "中文", "\U0001F600", "\U00010348", "Ω–", "ß"]
+    out = []
+    for _ in range(n):
+        langs = rng.choice([[], ["en"], ["fr", "ar"]])
+        form, probes = F.gen_probe_form(rng, langs, p_ref=0.4, p_instance=False)
+        for p in probes:
+            for part in p["parts"]:
+                if part[0] == "t" and part[1].strip():
+                    part[1] = part[1] + rng.choice(spice)
+        form = F.with_cells(form, probes, lambda p: p["parts"])
+        out.append((form, probes))
+    return out
+
+
+def env_stream(ctx, cases=None):
+    """The same forms converted in child processes whose default text encoding is / is not UTF-8: the outcome and
+    the recovered texts must not depend on it."""
+    cases = cases or env_forms(ctx, ctx.pick(3, 12))
+    forms = [f for f, _ in cases]
+    res = {name: run_children(forms, name) for name in ENVS}
+    ctx.notes["environments"] = {n: {"preferred_encoding": r["preferred_encoding"], "utf8_mode": r["utf8_mode"]} for n, r in res.items()}
+    if res["legacy-locale"]["preferred_encoding"].lower().replace("-", "") in ("utf8",):
+        ctx.count("env:legacy_locale_unavailable")
+    for i, (form, probes) in enumerate(cases):
+        a, b = res["legacy-locale"]["results"][i], res["utf8"]["results"][i]
+        ctx.count("env:forms")
+        case = {"kind": "env", "form": form, "probes": probes}
+        if a["class"] != b["class"]:
+            ctx.fail(Failure("locale-dependent", f"outcome depends on the process locale: legacy={a['class']} ({a.get('msg')}) utf8={b['class']} ({b.get('msg')})",
+                             case, signature="locale-dependent:outcome"))
+            ctx.record({"env": form}, True)
+            continue
+        if a["ok"]:
+            if a["xform"] != b["xform"]:
+                ta, tb = xmlutil.expat_tree(a["xform"])[0], xmlutil.expat_tree(b["xform"])[0]
+                if ta is None or tb is None or not xmlutil.tree_eq(ta, tb):
+                    ctx.fail(Failure("locale-dependent", "the XForm read by an XML parser depends on the process locale", case,
+                                     signature="locale-dependent:document", extra={"legacy": a["xform"][:3000], "utf8": b["xform"][:3000]}))
+            # the recovery / structure / shape oracles on what the legacy-locale process produced
+            check_form(ctx, form, probes, "env", r=a, env_name="legacy-locale")
+        else:
+            ctx.record({"env": form}, False)
 
 
 # ------------------------------------------------------------------ explore / replay
@@ -375,6 +487,8 @@ def explore(ctx, factor, bs):
     rng = ctx.rng
     ctx.notes["_lean_parse_rate"] = ctx.pick(1.0, 0.25)
     directed(ctx)
+    if factor == 1:
+        env_stream(ctx)
     n_forms = ctx.pick(500, 9000) * factor
     n_corr = ctx.pick(6000, 120000) * factor
     for _ in range(n_forms):
@@ -412,8 +526,12 @@ def replay(ctx, payload, bs):
     case = payload["case"]
     before = len(ctx.failures)
     ctx.notes["_lean_parse_rate"] = 1.0
-    if case["kind"] == "validchars":
+    if case["kind"] == "env":
+        env_stream(ctx, [(case["form"], case["probes"])])
+    elif case["kind"] == "validchars":
         validchars_case(ctx, case["s"])
+    elif case["kind"] == "form" and case.get("env"):
+        env_stream(ctx, [(case["form"], case["probes"])])
     elif case["kind"] == "form":
         check_form(ctx, case["form"], case["probes"], "replay")
     else:
@@ -428,6 +546,7 @@ MATCHERS = {
     "F4-reparse-non-xml-char": lambda f: f.signature == "reparse-crash:nonxml-char",
     "F15-instance-op-swallow": lambda f: f.signature in ("structure:instance-op-swallow", "not-recovered:instance-op-swallow", "shape:instance-op-swallow"),
     "F39-instance-double-escape": lambda f: f.signature in ("structure:instance-double-escape", "not-recovered:instance-double-escape", "shape:instance-double-escape"),
+    "F41-guidance-prefixed-name": lambda f: f.signature in ("not-recovered:guidance-media-url-prefixed-name", "structure:guidance-media-url-prefixed-name"),
     "F40-instance-hidden-by-quote": lambda f: f.signature in ("structure:instance-hidden-by-quote", "not-recovered:instance-hidden-by-quote", "shape:instance-hidden-by-quote"),
 }
 
